@@ -41,40 +41,41 @@ type LetDef struct {
 type Param struct{ Name, Type string }
 
 type FuncContract struct {
-	Key       string // pkgpath|Recv.Name  or pkgpath|Name
-	PkgName   string
-	Recv      string // receiver type name without * and package
-	RecvPtr   bool
-	Name      string
-	Params    []Param // including receiver first (if any)
-	Results   []Param
-	Props     []string
-	Requires  []*Clause
-	ObjInvs   []*Clause // object invariants over private state: assumed at entry (also at call sites, unchecked there)
-	Defines   []*Clause // definitional axioms of spec functions local to this contract (assumed at entry)
-	Ensures   []*Clause
-	Lets      []LetDef
-	Modifies  []Expr
-	ModSrc    []string
-	ModAll    bool
-	Loops     map[int]*LoopSpec
-	Branches  map[string][]*Clause
-	Extern    bool
-	Iface     bool
-	Pure      bool
-	Logged    bool
-	Trusted   bool // body not verified (assumed), listed in evidence
-	NoInline  bool
-	Nonblock  bool
-	Fresh     bool // result is freshly allocated
-	File      string
-	Line      int
-	Header    string
-	MayPanic  bool
-	CallsArg  bool // the function's whole effect is to call its last argument (a func()) once
-	Bounded   []BoundedDef
-	GhostSets []GhostSet
-	NoSafety  string // reason why panic-freedom obligations are not generated for this function
+	Key         string // pkgpath|Recv.Name  or pkgpath|Name
+	PkgName     string
+	Recv        string // receiver type name without * and package
+	RecvPtr     bool
+	Name        string
+	Params      []Param // including receiver first (if any)
+	Results     []Param
+	Props       []string
+	Requires    []*Clause
+	ObjInvs     []*Clause // object invariants over private state: assumed at entry (also at call sites, unchecked there)
+	Defines     []*Clause // definitional axioms of spec functions local to this contract (assumed at entry)
+	Ensures     []*Clause
+	Lets        []LetDef
+	Modifies    []Expr
+	ModSrc      []string
+	ModAll      bool
+	Loops       map[int]*LoopSpec
+	Branches    map[string][]*Clause
+	Extern      bool
+	Iface       bool
+	Pure        bool
+	Logged      bool
+	Trusted     bool // body not verified (assumed), listed in evidence
+	NoInline    bool
+	Nonblock    bool
+	Fresh       bool // result is freshly allocated
+	File        string
+	Line        int
+	Header      string
+	MayPanic    bool
+	CallsArg    bool // the function's whole effect is to call its last argument (a func()) once
+	Bounded     []BoundedDef
+	RecvAssumes map[string][]*Clause
+	GhostSets   []GhostSet
+	NoSafety    string // reason why panic-freedom obligations are not generated for this function
 }
 
 type GhostSet struct {
@@ -438,6 +439,24 @@ func (sp *Specs) LoadFile(path, pkgName string) error {
 			curLoop = &LoopSpec{Ordinal: n, Tag: m[3]}
 			cur.Loops[n] = curLoop
 			curBranch = ""
+		case "assume_recv":
+			// assume_recv "<-c.In": expr over $recv -- an unproved fact about every value received in that
+			// select case (ownership of buffers, ...); listed in the evidence
+			if cur == nil {
+				return fail("assume_recv outside a function contract")
+			}
+			m := regexp.MustCompile(`^"([^"]+)"\s*:\s*(.+)$`).FindStringSubmatch(rest)
+			if m == nil {
+				return fail("assume_recv \"case text\": expr")
+			}
+			e, err := ParseExpr(m[2])
+			if err != nil {
+				return fail("%v", err)
+			}
+			if cur.RecvAssumes == nil {
+				cur.RecvAssumes = map[string][]*Clause{}
+			}
+			cur.RecvAssumes[m[1]] = append(cur.RecvAssumes[m[1]], &Clause{Kind: "assume_recv", Src: m[2], E: e, File: path, Line: l.n, Label: "recv"})
 		case "branch":
 			name := strings.TrimSuffix(strings.TrimSpace(rest), ":")
 			curBranch = strings.Trim(name, `"`)
